@@ -421,6 +421,7 @@ class Machine:
         self.static_cache = {}
         self.type_fields_cache = {}
         self.violations = []
+        self.vcount = {}
         self.stats = {"steps": 0, "forks": 0}
         self.obl = {}  # obligation kind -> [checked, discharged]
         self._bytes_fields = None
@@ -438,7 +439,11 @@ class Machine:
             self.violate(st, "obligation:" + kind, detail or "")
 
     def violate(self, st, rule, detail, fatal=True):
-        self.violations.append({"rule": rule, "detail": detail, "where": self.where(st), "stack": self.stack(st), "path": self.describe_path(st)})
+        key = (rule, detail)
+        n = self.vcount.get(key, 0)
+        self.vcount[key] = n + 1
+        if n < 3:
+            self.violations.append({"rule": rule, "detail": detail, "where": self.where(st), "stack": self.stack(st), "path": self.describe_path(st)})
         if fatal:
             raise Violation(rule)
 
